@@ -18,8 +18,8 @@ def seq(name, n, warm, back, ops, tiers, maxslabs=2, unwind=None, timeout=900, *
     cap = 2 * per
     i = {'name': name, 'src': 'seq.cpp', 'engine': 'cbmc', 'shims': [_SHIM], 'models': ['aligned_alloc'],
          'repo_sources': _SRC, 'nthreads': 1, 'rt_defs': {'VF_TYPED_SINGLETON': 1},
-         'unwind_fn': {pfx + '20grabFromCentralStoreEPPc': per * 3 // 4 + 1, pfx + '21recycleToCentralStoreEPPcm': per // 4 + 1,
-                       pfx + '20PerThreadQueuingDataD2Ev': per // 2 + 1, 'vf_main': max(cap, warm + ops + 1) + 1},
+         'unwind_fn': {pfx + '20grabFromCentralStoreEPPc': per * 3 // 4 + 1, pfx + '21recycleToCentralStoreEPPcm': per * 3 // 4 + 1,
+                       pfx + '20PerThreadQueuingDataD2Ev': per * 3 // 4 + 1, 'vf_main': max(cap, warm + ops + 1) + 1},
          # grabFromCentralStore: loop 6 = spin `while (lock.load())`, loop 7 = outer `while (true)`; sequentially the lock is free:
          # no spin iteration, one pass of the outer loop (unwinding assertions are on)
          'unwindset': {pfx + '20grabFromCentralStoreEPPc.6': 2, pfx + '20grabFromCentralStoreEPPc.7': 2},
@@ -70,7 +70,8 @@ def intrude(name, n, tiers):
 
 INSTANCES = [
     intrude('intrude256', 256, ['quick', 'thorough']),
-    conc('conc256_ac', 256, 2, ['quick', 'thorough'], defs={'VF_WITH_B': 0, 'VF_A_ALLOCS': 1, 'VF_POST': 0}),
-    seq('seq256_script', 256, 130, 70, 0, ['quick', 'thorough'], timeout=280),
+    conc('conc256_ac', 256, 2, [],  # too expensive in cbmc-seq, see NOTES.md
+          defs={'VF_WITH_B': 0, 'VF_A_ALLOCS': 1, 'VF_POST': 0}),
+    seq('seq256_script', 256, 130, 70, 0, [], timeout=1500),  # not finished: > 5 min, see NOTES.md
     seq('seq256_fresh', 256, 0, 0, 2, [], thorough={'defs': {'VF_N': 256, 'VF_WARM': 0, 'VF_BACK': 0, 'VF_OPS': 8, 'VF_MQ_CAP': 256, 'VF_MAXSLABS': 2}}),
 ]
